@@ -61,8 +61,12 @@ def _mc(run):
             raise Inconclusive("DiskWriterMC sanity configuration %s was not rejected: the model is vacuous" % cfg)
 
 
+LOCAL = ("faults", ["-what", "local"], "faults-local")
+
+
 def check(run):
-    return syncfam.run_family(run, "C01", "sync", {"C01"}, mc=_mc, assumptions=ASSUME, selftests=[
+    # also: small transfers with one fault that leaves the stream intact - success must still mean "equal to the source"
+    return syncfam.run_family(run, "C01", "sync", {"C01"}, mc=_mc, assumptions=ASSUME, also=[LOCAL], witness=False, selftests=[
         ("flip a permission bit in the after-snapshot", _corrupt_after),
         ("change the content id of a stored file", _corrupt_content),
         ("drop the last entry of the after-snapshot", _drop_entry)])
@@ -72,7 +76,12 @@ def replay(run, path):
     import json, os
     from vlib import finish
     run.build()
-    t, _ = run.drive("sync", replay=path)
+    d = json.load(open(path))
+    ev0 = (d.get("events") or [d])[0]
+    if "fault" in ev0:
+        t, _ = run.drive("faults", replay=path, extra=LOCAL[1])
+    else:
+        t, _ = run.drive("sync", replay=path)
     tr = syncfam.filter_prefix(run.tlc_trace("SyncTrace", t, shards=1), {"C01"})
     fails = syncfam.confirm_by_replay_prefixed(run, "sync", "SyncTrace", tr, {"C01"}, syncfam.sig_default, syncfam.text_default, None)
     return finish(run, "model_checking", fails, assumptions=ASSUME)
